@@ -1,9 +1,10 @@
 SPECIFICATION Spec
 CONSTANTS
   Inputs = {1, 2}
-  Biases = {3}
-  Hidden = {}
-  OutSet = {4, 5}
+  Biases = {3, 4}
+  Hidden = {7, 8}
+  OutSet = {5, 6}
+  Shapes = {{1, 2, 3, 5, 6}}
   Weights <- W2
   InVals <- V2
   OrderKinds = {"BIOH"}
